@@ -243,7 +243,24 @@ func Elements(fields []ref.Field, vals []ref.Value) []entities.InfoElementWithVa
 
 // DataSet builds a data set with the given records.
 func DataSet(id uint16, fields []ref.Field, recs [][]ref.Value, path int) (entities.Set, error) {
-	set := entities.NewSet(false)
+	return DataSetInto(entities.NewSet(false), id, fields, recs, path)
+}
+
+// TemplateSetInto fills an existing (fresh or reset) set with one template record.
+func TemplateSetInto(set entities.Set, id uint16, fields []ref.Field, path int) (entities.Set, error) {
+	if err := set.PrepareSet(entities.Template, id); err != nil {
+		return nil, err
+	}
+	els := make([]entities.InfoElementWithValue, len(fields))
+	for i, f := range fields {
+		els[i] = glue.Element(glue.IE(f), f.Type, ref.Value{})
+		els[i].ResetValue()
+	}
+	return set, addRecord(set, els, id, path)
+}
+
+// DataSetInto fills an existing (fresh or reset) set with the given records.
+func DataSetInto(set entities.Set, id uint16, fields []ref.Field, recs [][]ref.Value, path int) (entities.Set, error) {
 	if err := set.PrepareSet(entities.Data, id); err != nil {
 		return nil, err
 	}
